@@ -35,13 +35,19 @@ RULE = (
     "by the data, declared by the source, or declared by both ends each in its own layout) where every read is judged; plus scripts on 2-3 living grid objects "
     "(compatible_with / == / get_transform_to against the same partner repeatedly, data_location changes accepted "
     "and rejected, shallow and deep copies) where every answer is judged against the objects' current fields; "
+    "relay chains in a real Composition (CallbackGenerator[A] -> TimeTrigger with input grid B -> DebugConsumer[C], three "
+    "layouts of one geometry, 3 data sets, each judged at the consumer); pairs where both grids carry a reference system "
+    "(same, different, or differing only in the axis order: EPSG:4326 / OGC:CRS84, EPSG:4269 / OGC:CRS83); "
     "non-trivial = the grids are compatible and the two layouts differ (a real transformation happens) and the grid "
     "has >= 2 data elements; distinct by canonical case hash"
 )
 TRUSTED = [
     "GridCanon.v models numpy transpose / flip / moveaxis as re-indexing of (shape, index function); np.allclose in "
     "compatible_with is modelled as exact equality of rationals (generated axes are either identical or differ by >= 1/4)",
-    "the link driver uses Output >> Input directly (ping, push_info, exchange_info, push_data, pull_data), units unset",
+    "the link driver uses Output >> Input directly (ping, push_info, exchange_info, push_data, pull_data), units unset; "
+    "relay cases run a real Composition with finam's CallbackGenerator, TimeTrigger and DebugConsumer",
+    "a crs is an opaque tag in the model: different tags are different reference systems (the tags used are EPSG:4326, "
+    "OGC:CRS84, EPSG:4269, OGC:CRS83, EPSG:32632, which are pairwise different systems, two pairs differing in axis order only)",
 ]
 ASSUMPTIONS = [
     "domain of the theorems: well-formed grids (one direction flag per axis, axes non-empty; compatible_iff: strictly "
@@ -65,6 +71,19 @@ def vary_spacing(d, rng, p=0.5):
 # ---------------------------------------------------------------------------------------------
 # grid descriptions
 # ---------------------------------------------------------------------------------------------
+# reference systems: different codes are different systems; 1/2 and 3/4 differ ONLY in the order of their axes
+# (lat, lon) / (lon, lat): the same numbers on the first and second axis are then different locations
+CRS_VALUES = [None, "EPSG:4326", "OGC:CRS84", "EPSG:4269", "OGC:CRS83", "EPSG:32632"]
+
+
+def vary_crs(g, h, rng, p=0.25):
+    """both grids carry a reference system: the same one, or another one (also one that differs in axis order only)"""
+    if rng.random() < p:
+        g["crs"] = rng.randrange(1, len(CRS_VALUES))
+        h["crs"] = g["crs"] if rng.random() < 0.5 else rng.choice([c for c in (1, 2, 3, 4) if c != g["crs"]])
+    return g, h
+
+
 CASTS = ("to_rectilinear", "to_uniform")
 VIAS = {
     "uniform": [["to_rectilinear"], ["to_rectilinear", "copy"], ["copy", "to_rectilinear"], ["copy"], ["deepcopy"],
@@ -229,6 +248,17 @@ def holes_bool(vals):
     return [v is None for v in vals]
 
 
+def make_relay_case(g, m, h, rng, masked=None, nsteps=2):
+    """source[g] -> relay component with its own input grid m (finam's TimeTrigger) -> consumer[h] in a Composition;
+    data set of day k carries the location codes + k * SEQ_OFF (one fixed mask)"""
+    base = make_case("link", g, h, "data", rng, masked=masked)
+    holes = [v is None for v in base["vals"]]
+    plain = make_case("link", g, h, "data", rng, masked=False)["vals"]
+    sets = [{"shape": base["shape"], "vals": [None if x else v + k * SEQ_OFF for v, x in zip(plain, holes)]}
+            for k in range(nsteps + 1)]
+    return {"kind": "relay", "g": g, "m": m, "h": h, "mode": "data", "sets": sets, "nsteps": nsteps, "masked": any(holes)}
+
+
 def make_gridseq(rng):
     """script on 2-3 living grid objects: compare (same partner repeatedly), relocate, copy"""
     d = rng.choice([1, 2, 2, 3])
@@ -247,6 +277,10 @@ def make_gridseq(rng):
                      rng.choice(["CELLS", "POINTS"]))
 
     grids = [vary_via(vary_spacing(one(k), rng, 0.4), rng, 0.4) for k in range(rng.choice([2, 2, 3]))]
+    if rng.random() < 0.3:
+        base = rng.randrange(1, 5)
+        for gd in grids:
+            gd["crs"] = base if rng.random() < 0.6 else rng.randrange(1, 5)
     nobj = len(grids)
     ops = []
     pair = (0, 1)
@@ -333,6 +367,8 @@ def _cross(rng, kind):
     h = gdesc(cls_h, hgeom, hdims, oh, rh, ih, hloc, hcrs)
     g, h = vary_spacing(g, rng, 0.3), vary_spacing(h, rng, 0.3)
     g, h = vary_via(g, rng, 0.5), vary_via(h, rng, 0.5)
+    if hcrs == 0:
+        g, h = vary_crs(g, h, rng, 0.4)
     return make_case(kind, g, h, _mode(rng, kind), rng)
 
 
@@ -470,11 +506,45 @@ CORPUS_SEQ_X = [
 ]
 
 
+CORPUS_RELAY = [
+    # seeded defect C15_l: the relay's input declares layout B; what it passes on is described by the info of its exchange
+    (_U(False, [True, True]), _U(False, [True, False]), _U(False, [True, True])),
+    (_U(False, [True, True]), _U(False, [False, True]), _U(True, [True, True])),
+    (_ES, _U(False, [True, True]), _ES),
+    (_U(False, [True, True], dims=(4, 4)), _U(True, [True, True], dims=(4, 4)), _U(False, [True, False], dims=(4, 4))),
+    (gdesc("uniform", 0, (3, 2, 3), "F", False, [True, True, True], "POINTS"),
+     gdesc("rect", 0, (3, 2, 3), "C", True, [True, False, True], "POINTS"),
+     gdesc("uniform", 0, (3, 2, 3), "C", False, [False, True, True], "POINTS")),
+    (gdesc("uniform", 0, (4,), "F", False, [True], "CELLS"), gdesc("uniform", 0, (4,), "F", False, [False], "CELLS"),
+     gdesc("uniform", 0, (4,), "F", True, [True], "CELLS")),
+    (_U(False, [True, True]), _U(True, [True, False]), _U(False, [True, True])),      # axes_reversed differs, non-square
+    (_U(False, [True, True]), _U(False, [True, True]), _U(True, [True, False])),      # relay in the source's layout
+    (_U(False, [True, True]), _U(False, [True, True], dims=(4, 4)), _U(False, [True, True])),  # conflicting relay grid
+]
+
+
+def _crs(d, c):
+    d = dict(d)
+    d["crs"] = c
+    return d
+
+
 def generate(rng, tier):
     crng = __import__("random").Random(15)
     cases = [make_case(k, g, h, m, crng) for k, g, h, m in CORPUS_SPEC]
     cases += [make_seq_case(g, h, st, m, n, crng) for g, h, st, m, n in CORPUS_SEQ]
     cases += [make_seq_case(g, h, st, m, n, crng, **kw) for g, h, st, m, n, kw in CORPUS_SEQ_X]
+    cases += [make_relay_case(g, m, h, crng) for g, m, h in CORPUS_RELAY]
+    # seeded defect C15_m: reference systems that differ only in their axis order are different locations
+    for kind in ("methods", "link"):
+        for cg, ch in ((1, 2), (2, 1), (3, 4), (1, 1), (2, 2), (1, 3), (0, 2)):
+            cases.append(make_case(kind, _crs(_U(False, [True, True]), cg), _crs(_U(False, [True, False]), ch), "data", crng))
+            cases.append(make_case(kind, _crs(_U(True, [True, False], "POINTS"), cg), _crs(_U(True, [True, False], "POINTS"), ch),
+                                   "time1", crng))
+    cases.append({"kind": "gridseq", "masked": False, "mode": "objects",
+                  "grids": [_crs(_GC, 1), _crs(_GC, 2), _crs(_ES, 1), _crs(_via(_ES, "to_uniform"), 2)],
+                  "ops": [["compat", 0, 1], ["compat", 1, 0], ["eq", 0, 1], ["trans", 0, 1], ["compat", 0, 2], ["compat", 2, 3],
+                          ["eq", 2, 3], ["trans", 3, 2], ["compat", 1, 3]]})
     cases += [{"kind": "gridseq", "grids": gs, "ops": ops, "masked": False, "mode": "objects"} for gs, ops in CORPUS_GRIDSEQ]
     for _ in range(600 if tier == "quick" else 6000):
         cases.append(make_gridseq(rng))
@@ -491,6 +561,7 @@ def generate(rng, tier):
             h = gdesc(rng.choice(["uniform", "rect"]) if geom == 0 else "rect", geom, dims, rng.choice("CF"), rh, ih, loc)
             g, h = vary_spacing(g, rng, 0.4), vary_spacing(h, rng, 0.4)
             g, h = vary_via(g, rng, 0.3), vary_via(h, rng, 0.3)
+            g, h = vary_crs(g, h, rng, 0.12)
             cases.append(make_case(kind, g, h, _mode(rng, kind), rng))
             if kind == "link":
                 # the same pair again as a script: static link read 2-4 times / several publications read repeatedly
@@ -500,6 +571,14 @@ def generate(rng, tier):
                 declare = None if r < 0.5 else "source" if r < 0.65 else "both"
                 cases.append(make_seq_case(g, h, static, rng.choice(["data", "time1"]), npulls, rng,
                                            flat=rng.random() < 0.35, declare=declare, push_masked=rng.random() < 0.5))
+                if rng.random() < (0.3 if tier == "quick" else 0.6):
+                    # the same pair with a relaying component in between whose input declares a third layout
+                    rm, im = rng.choice(layouts(len(dims)))
+                    cm = rng.choice(["uniform", "rect"]) if geom == 0 else "rect"
+                    m = vary_via(gdesc(cm, geom, dims, rng.choice("CF"), rm, im, loc, g["crs"]), rng, 0.3)
+                    if rng.random() < 0.06:
+                        m["dims"] = [n + 1 for n in m["dims"]]  # conflicting grid: refused at connect
+                    cases.append(make_relay_case(g, m, h, rng))
     ncross = 500 if tier == "quick" else 5000
     for i in range(ncross):
         cases.append(_cross(rng, "methods" if i % 2 else "link"))
@@ -519,7 +598,7 @@ def build(d):
 
 def build0(d):
     c = spec_case(d)
-    crs = None if d["crs"] == 0 else "CRS-%d" % d["crs"]
+    crs = CRS_VALUES[d["crs"]]
     loc = G._loc(c["loc"])
     if c["cls"] == "uniform":
         return fm.UniformGrid(dims=tuple(c["dims"]), spacing=tuple(float(G._fq(x)) for x in c["spacing"]),
@@ -589,9 +668,40 @@ def run_gridseq(case):
     return {"res": res, "bools": []}
 
 
+def run_relay(case):
+    from datetime import datetime, timedelta
+
+    start, step = datetime(2000, 1, 1), timedelta(days=1)
+    g, m, h = build(case["g"]), build(case["m"]), build(case["h"])
+    sets = [to_array(d) for d in case["sets"]]
+    gen = fm.components.CallbackGenerator(
+        {"Out": (lambda t: sets[min((t - start).days, len(sets) - 1)], fm.Info(time=None, grid=g))}, start=start, step=step)
+    seen = []
+
+    def record(_name, data, t):
+        seen.append([(t - start).days, arr_obs(data)])
+
+    cons = fm.components.DebugConsumer({"In": fm.Info(time=None, grid=h)}, start=start, step=step, callbacks={"In": record})
+    mod = fm.components.TimeTrigger(start=start, step=step, in_info=fm.Info(time=None, grid=m))
+    comp = fm.Composition([gen, mod, cons], log_level="CRITICAL", print_log=False)
+    gen.outputs["Out"] >> mod.inputs["In"]
+    mod.outputs["Out"] >> cons.inputs["In"]
+    try:
+        comp.run(start_time=start, end_time=start + case["nsteps"] * step)
+    except fm.errors.FinamMetaDataError:
+        return {"days": [], "res": [["err", 2]], "bools": [], "seen_before_error": len(seen)}
+    except fm.errors.FinamDataError:
+        return {"days": [k for k, _ in seen], "res": [r for _, r in seen] + [["err", 3]], "bools": [], "raised": "DataError"}
+    except ValueError:
+        return {"days": [k for k, _ in seen], "res": [r for _, r in seen] + [["err", 1]], "bools": [], "raised": "ValueError"}
+    return {"days": [k for k, _ in seen], "res": [r for _, r in seen], "bools": []}
+
+
 def run_impl(case):
     if case["kind"] == "gridseq":
         return run_gridseq(case)
+    if case["kind"] == "relay":
+        return run_relay(case)
     g, h = build(case["g"]), build(case["h"])
     if case["kind"] == "linkseq":
         return run_seq(case, g, h)
@@ -695,6 +805,14 @@ def _gop(op):
 
 
 def coq_case(case, obs):
+    if case["kind"] == "relay":
+        # the data sets in the order in which the consumer saw them (recorded day numbers)
+        ds = []
+        for k in obs.get("days", []):
+            d = case["sets"][min(k, len(case["sets"]) - 1)]
+            ds.append(P(G.NL([1] + list(d["shape"])), L(VAL(v) for v in d["vals"])))
+        dsl = L(ds) if ds else "(@nil (list nat * list val))"
+        return C("CRelay", coq_grid(case["g"]), coq_grid(case["m"]), coq_grid(case["h"]), dsl)
     if case["kind"] == "gridseq":
         grids = []
         for d in case["grids"]:
@@ -810,9 +928,30 @@ def _monitor_gridseq(case, obs):
     return None
 
 
+def _monitor_relay(case, obs):
+    g, m, h = case["g"], case["m"], case["h"]
+    ok = same_located_axes(g, m) and same_located_axes(m, h)
+    res, days = obs["res"], obs["days"]
+    if not ok:
+        return None if res == [["err", 2]] else f"a relay / consumer with a conflicting grid was connected: {res[-1][:2]}"
+    if obs.get("raised") or res == [["err", 2]]:
+        return (f"compatible grids source {g['rev'], g['inc']} -> relay {m['rev'], m['inc']} -> consumer {h['rev'], h['inc']}: "
+                f"the run stopped with {obs.get('raised', 'FinamMetaDataError')} after {len(days)} delivered data sets")
+    if len(days) != case["nsteps"] + 1:
+        return f"the consumer saw {len(days)} data sets instead of {case['nsteps'] + 1}"
+    for k, r in zip(days, res):
+        sub = {"g": g, "vals": case["sets"][min(k, len(case["sets"]) - 1)]["vals"]}
+        f = _expect_located(sub, r, h, 1, f"data set of day {k} at the consumer behind the relay", off=k * SEQ_OFF)
+        if f:
+            return f
+    return None
+
+
 def _monitor(case, obs):
     if case["kind"] == "gridseq":
         return _monitor_gridseq(case, obs)
+    if case["kind"] == "relay":
+        return _monitor_relay(case, obs)
     g, h, mode = case["g"], case["h"], case["mode"]
     compat = same_located_axes(g, h)
     tn = {"data": 0, "time1": 1, "time2": 2}.get(mode)
@@ -877,6 +1016,9 @@ def monitor(case, obs):
 
 
 def nontrivial(case, obs):
+    if case["kind"] == "relay":
+        g, m, h = case["g"], case["m"], case["h"]
+        return same_located_axes(g, m) and same_located_axes(m, h) and not same_layout(g, m) and int(np.prod(data_shape(g))) >= 2
     if case["kind"] == "gridseq":
         # a comparison of a pair, a successful relocation of one of the two, the same pair compared again
         seen, moved = set(), set()
@@ -910,6 +1052,9 @@ def distribution(cases, obss):
         "obtained_via": dict(Counter("+".join(d.get("via", [])) or "constructor" for c in cases
                                      for d in ([c["g"], c["h"]] if "g" in c else c["grids"]))),
         "compatible": dict(Counter(str(same_located_axes(c["g"], c["h"])) for c in cases if "g" in c)),
+        "crs_pairs": dict(Counter("same" if c["g"]["crs"] == c["h"]["crs"] else "axis-order" if {c["g"]["crs"], c["h"]["crs"]} in ({1, 2}, {3, 4})
+                                  else "different" for c in cases if "g" in c and (c["g"]["crs"] or c["h"]["crs"]))),
+        "relay_layouts": dict(Counter(("same" if same_layout(c["g"], c["m"]) else "differs") for c in cases if c["kind"] == "relay")),
         "gridseq_ops": dict(Counter(op[0] for c in cases if c["kind"] == "gridseq" for op in c["ops"])),
         "result": dict(Counter(o["res"][-1][0] + (str(o["res"][-1][1]) if o["res"][-1][0] == "err" else "")
                                for o in obss if isinstance(o, dict) and "res" in o)),
@@ -917,6 +1062,10 @@ def distribution(cases, obss):
 
 
 def shrink_candidates(case):
+    if case["kind"] == "relay":
+        if case["masked"]:
+            yield make_relay_case(case["g"], case["m"], case["h"], __import__("random").Random(1), masked=False, nsteps=case["nsteps"])
+        return
     if case["kind"] == "gridseq":
         ops = case["ops"]
         for i in range(len(ops) - 1, -1, -1):
